@@ -118,12 +118,17 @@ void run_typed(const Execution &ex) {
         } else if (op == "CtorList") {
             std::vector<T> x;
             for (int q : vals) x.push_back(Val<T>::make(q));
+            // the same list object is used twice: constructing an Array must leave the list's elements as they were
+            auto twice = [&](std::initializer_list<T> il) {
+                { A scratch(il); }
+                me = new A(il);
+            };
             switch (x.size()) {
-                case 0: me = new A(std::initializer_list<T>{}); break;
-                case 1: me = new A({x[0]}); break;
-                case 2: me = new A({x[0], x[1]}); break;
-                case 3: me = new A({x[0], x[1], x[2]}); break;
-                default: me = new A({x[0], x[1], x[2], x[3]}); break;
+                case 0: twice({}); break;
+                case 1: twice({x[0]}); break;
+                case 2: twice({x[0], x[1]}); break;
+                case 3: twice({x[0], x[1], x[2]}); break;
+                default: twice({x[0], x[1], x[2], x[3]}); break;
             }
         } else if (op == "CtorSized") {
             me = new A(n);
